@@ -93,6 +93,20 @@ func PsPes(streamId byte, pts int64, payload []byte) []byte {
 	return append(b, payload...)
 }
 
+// PsPesPd writes one PES packet with a PTS and, if dts >= 0, a DTS field (PTS_DTS_flags '11',
+// prefixes '0011' / '0001'); both are 33-bit values.  The payload must leave room for the 10-byte
+// header data (5 bytes less than PsPesMax(true) with a DTS).
+func PsPesPd(streamId byte, pts, dts int64, payload []byte) []byte {
+	if dts < 0 {
+		return PsPes(streamId, pts, payload)
+	}
+	hd := append(psTs(3, uint64(pts)), psTs(1, uint64(dts))...)
+	n := 3 + len(hd) + len(payload)
+	b := []byte{0, 0, 1, streamId, byte(n >> 8), byte(n), 0x80, 0xc0, byte(len(hd))}
+	b = append(b, hd...)
+	return append(b, payload...)
+}
+
 // PsPesMax is the largest payload of one PES packet (PES_packet_length = 0xFFFF).
 func PsPesMax(withPts bool) int {
 	if withPts {
